@@ -182,11 +182,11 @@ def queryCoeff (f : SigT Rat) (a : Exp) : Rat := lookupC f.terms (roundExp a)
 
 def absQ (q : Rat) : Rat := if q < 0 then -q else q
 
-/-- `Signomial.__eq__` as the code has it: equal term counts, then every term of the LEFT operand is
-    matched in the right one up to `tol` -/
+/-- `Signomial.__eq__`: every term of either operand is matched in the other one up to `tol`
+    (a term that is absent counts as coefficient 0) -/
 def eqCode (tol : Rat) (f g : SigT Rat) : Bool :=
-  f.terms.length == g.terms.length &&
-  f.terms.all fun t => absQ (t.2 - queryCoeff g t.1) ≤ tol
+  (f.terms.all fun t => absQ (t.2 - queryCoeff g t.1) ≤ tol) &&
+  (g.terms.all fun t => absQ (t.2 - queryCoeff f t.1) ≤ tol)
 
 /-! ### polynomials: same representation; extra checks -/
 
